@@ -10,6 +10,7 @@ import (
 
 	v1 "k8s.io/api/core/v1"
 	resourceapi "k8s.io/api/resource/v1"
+	"k8s.io/apimachinery/pkg/types"
 	"k8s.io/component-helpers/scheduling/corev1/nodeaffinity"
 	"k8s.io/dynamic-resource-allocation/cel"
 	"k8s.io/dynamic-resource-allocation/structured"
@@ -35,6 +36,10 @@ type draPlugin struct {
 	manager       k8sframework.SharedDRAManager
 	celCache      *cel.Cache
 	queueLabelKey string
+
+	// signalledClaims are the claims whose in-flight allocation this session signalled to the manager (it offers no way
+	// to list them); they are withdrawn when the session closes
+	signalledClaims []types.UID
 }
 
 // +kubebuilder:rbac:groups="resource.k8s.io",resources=deviceclasses;resourceslices;resourceclaims,verbs=get;list;watch
@@ -175,6 +180,7 @@ func (drap *draPlugin) assumePendingClaim(claim *schedulingv1alpha2.ResourceClai
 	resources.UpsertReservedFor(updatedClaim, pod)
 	updatedClaim.Status.Allocation = claim.Allocation
 
+	drap.signalledClaims = append(drap.signalledClaims, updatedClaim.UID)
 	return drap.manager.ResourceClaims().SignalClaimPendingAllocation(updatedClaim.UID, updatedClaim)
 }
 
@@ -278,7 +284,18 @@ func (drap *draPlugin) deallocateHandlerFn(_ *framework.Session) func(event *fra
 	}
 }
 
-func (drap *draPlugin) OnSessionClose(_ *framework.Session) {}
+// OnSessionClose withdraws the in-flight allocations signalled at session open. They only have to hold while the
+// session runs (the next session signals again what is still pending), and the next session cannot withdraw the one
+// of a claim that was deleted meanwhile (a generated claim goes with its pod): its devices would stay taken for ever.
+func (drap *draPlugin) OnSessionClose(_ *framework.Session) {
+	if drap.manager == nil {
+		return
+	}
+	for _, uid := range drap.signalledClaims {
+		drap.manager.ResourceClaims().RemoveClaimPendingAllocation(uid)
+	}
+	drap.signalledClaims = nil
+}
 
 func (drap *draPlugin) allocateResourceClaim(task *pod_info.PodInfo, podClaim *v1.PodResourceClaim, node *v1.Node) error {
 	claimName, err := resources.GetResourceClaimName(task.Pod, podClaim)
